@@ -228,10 +228,17 @@ func ParseMessage(reader *bufio.Reader) (*Message, error) {
 	if contentLength < 0 {
 		return nil, errors.New("invalid negative Content-Length field")
 	}
-	msg.body = make([]byte, contentLength)
-	if _, err = io.ReadFull(reader, msg.body); err != nil {
+	// the declared length comes from the peer: let the buffer grow with the
+	// bytes that really arrive instead of allocating it up front
+	initialCap := contentLength
+	if initialCap > 64*1024 {
+		initialCap = 64 * 1024
+	}
+	body := bytes.NewBuffer(make([]byte, 0, initialCap))
+	if _, err = io.CopyN(body, reader, int64(contentLength)); err != nil {
 		return nil, err
 	}
+	msg.body = body.Bytes()
 	return msg, nil
 }
 
